@@ -380,8 +380,8 @@ def check_who_may_mutate(chk, repo):
                     inplace = cp is not None and not (isinstance(cp, ast.Constant) and cp.value is True)
                     if inplace:
                         n_sites += 1
-                        chk.ob("C07.W.who-may-mutate", f"Circuit.{m}::nx.relabel_nodes(copy=False)", who.within({"relabel"}), file=FILE, func=f"Circuit.{m}", line=n.lineno,
-                               fact={"method": m}, expect="only in relabel")
+                        chk.ob("C07.W.who-may-mutate", f"Circuit.{m}::nx.relabel_nodes(copy=False)", who.within({"relabel", "fill_blackbox"}), file=FILE, func=f"Circuit.{m}", line=n.lineno,
+                               fact={"method": m}, expect="only in relabel and in fill_blackbox (which renames the pins of the filled instance - through relabel or directly)")
             # attribute-dict stores
             targets = []
             if isinstance(n, ast.Assign):
@@ -493,14 +493,17 @@ class Order:
                     adds = True
         return adds, raises
 
-    @staticmethod
-    def is_rollback(tr):
+    def is_rollback(self, tr):
         for h in tr.handlers:
             names = [norm(x).split(".")[-1] for x in (h.type.elts if isinstance(h.type, ast.Tuple) else [h.type])] if h.type is not None else ["BaseException"]
             if not ({"ValueError", "Exception", "BaseException"} & set(names)):
                 continue
-            removes = any(isinstance(n, ast.Call) and isinstance(n.func, ast.Attribute) and ((dotted(n.func.value) == "self.graph" and n.func.attr in ("remove_node", "remove_nodes_from")) or (dotted(n.func.value) == "self" and n.func.attr == "remove"))
-                          for x in h.body for n in ast.walk(x))
+            removes = self._removes(h.body)
+            if not removes:
+                # ... or through a local helper of the enclosing function (`take_back()`)
+                local_defs = {d.name: d for d in ast.walk(self.fi.node) if isinstance(d, ast.FunctionDef) and d is not self.fi.node} if getattr(self, "fi", None) is not None else {}
+                called = {n.func.id for x in h.body for n in ast.walk(x) if isinstance(n, ast.Call) and isinstance(n.func, ast.Name)}
+                removes = any(nm in local_defs and self._removes(local_defs[nm].body) for nm in called)
             reraises = bool(h.body) and isinstance(h.body[-1], ast.Raise) and h.body[-1].exc is None
             if removes and reraises:
                 return True
@@ -548,7 +551,9 @@ class Order:
 
     @staticmethod
     def _removes(body):
-        return any(isinstance(n, ast.Call) and isinstance(n.func, ast.Attribute) and ((dotted(n.func.value) == "self.graph" and n.func.attr in ("remove_node", "remove_nodes_from")) or (dotted(n.func.value) == "self" and n.func.attr == "remove"))
+        # `self.graph.remove_node(s_from)(...)`, the same through a local alias of the graph (`graph = self.graph`), `self.remove(...)`
+        return any(isinstance(n, ast.Call) and isinstance(n.func, ast.Attribute) and ((n.func.attr in ("remove_node", "remove_nodes_from") and (dotted(n.func.value) == "self.graph" or isinstance(n.func.value, ast.Name)))
+                                                                                  or (dotted(n.func.value) == "self" and n.func.attr == "remove"))
                    for x in body for n in ast.walk(x))
 
     def is_rollback_stack(self, st):
@@ -581,6 +586,8 @@ class Order:
         if isinstance(expr.func, ast.Attribute) and dotted(expr.func.value) not in ("self", "Circuit"):
             return False
         name = expr.func.attr if isinstance(expr.func, ast.Attribute) else expr.func.id
+        if (FILE, name) in self.repo.classes:
+            return True  # a manager class of the module whose `__exit__` the rollback reader did not recognise (it calls what it was handed)
         cands = [fi for (rel, q), fi in self.repo.funcs.items() if rel == FILE and q in (f"Circuit.{name}", name)]
         return any(not any(norm(d).split(".")[-1] == "contextmanager" for d in fi.node.decorator_list) for fi in cands)
 
